@@ -137,6 +137,17 @@ def module_state(mod):
     return st
 
 
+def torch_globals():
+    """process-wide torch settings a call must leave as it found them"""
+    return {'default_dtype': str(torch.get_default_dtype()), 'grad_enabled': torch.is_grad_enabled(),
+            'num_threads': torch.get_num_threads(),
+            'deterministic': torch.are_deterministic_algorithms_enabled(),
+            'rng': hashlib.blake2b(torch.get_rng_state().numpy().tobytes(), digest_size=8).hexdigest()}
+
+
+CHECK_GLOBALS = True
+
+
 def wrap_entry(orig, where, is_method=True):
     @functools.wraps(orig)
     def wrapper(*args, **kwargs):
@@ -145,6 +156,7 @@ def wrap_entry(orig, where, is_method=True):
         snap = snapshot_args(list(call_args)) + snapshot_args(kwargs and list(kwargs.values()) or [], 'kw')
         state = module_state(self) if is_method else []
         in_dtype = _first_float_dtype(list(call_args))
+        g0 = torch_globals() if CHECK_GLOBALS else None
         mon = None
         if ENABLE_DISPATCH:
             protect = [(p, r) for p, k, f, r in snap + state if k == 'tensor']
@@ -159,6 +171,16 @@ def wrap_entry(orig, where, is_method=True):
             ok = True
             return out
         finally:
+            if g0 is not None:
+                _count('M-GLOBAL')
+                g1 = torch_globals()
+                # the default dtype is excluded when another thread of the harness may legitimately be
+                # constructing a module (serialised among themselves, not against calls)
+                keys = [k for k in g0 if not (k == 'default_dtype' and threading.active_count() > 1)]
+                ch = [k for k in keys if g0[k] != g1[k]]
+                if ch:
+                    _log('M-GLOBAL', where, 'process-wide torch state changed across the call: %s' % (
+                        {k: (g0[k], g1[k]) for k in ch if k != 'rng'} or 'global RNG state consumed'))
             _count('M-ARG')
             compare_snapshot(snap, where, 'M-ARG')
             if is_method:
